@@ -127,11 +127,9 @@ impl Store {
 //@+    r matches Ok(b) ==> b.store == self && b.tx_counter is Some && b.write.view@ == sp_committed(self.env) && b.write.env@ == self.env.id@,
 //@ end
 }
-pub struct Batch<'a> {
-    pub store: &'a Store,
-    pub write: RwTxn<'a>,
-    pub tx_counter: Option<TxCounter>,
-}
+//@ extract store/src/lmdb.rs :: struct Batch
+//@   pub_fields
+//@ end
 impl<'a> Batch<'a> {
 //@ extract store/src/lmdb.rs :: impl Batch::new
 //@   ensures:
